@@ -14,6 +14,9 @@ META = {
 THEOREMS = [
     "Qentem.Props.C19.C19",
     "Qentem.Props.C19.C19_sequences",
+    "Qentem.Props.C19.C19_sequences2",
+    "Qentem.Props.C19.step2_exact",
+    "Qentem.BigInt.copy_spec",
     "Qentem.Props.C19.step_exact",
     "Qentem.Props.C19.run_exact",
     "Qentem.Props.C19.C19_native",
@@ -153,6 +156,7 @@ def gen_sequence(rng, W, n, length):
     total = n * W
     M = (1 << total) - 1
     v = 0
+    vt = 0
     ops = []
     wtop = (1 << W) - 1
     while len(ops) < length:
@@ -203,8 +207,17 @@ def gen_sequence(rng, W, n, length):
             ops.append(rng.choice(["ib", "nz", "iz", "nu"]))
         elif r < 0.95:
             ops.append("nw:%d" % rng.choice(KS))
-        elif r < 0.995:
+        elif r < 0.975:
             ops.append(rng.choice(["ff", "fl"]))
+        elif r < 0.995:
+            o = rng.choice(["sv", "sv", "ld", "mv"])
+            ops.append(o)
+            if o == "sv":
+                vt = v
+            elif o == "ld":
+                v = vt
+            else:
+                v, vt = vt, 0
         else:
             ops.append("cl"); v = 0
     return ops
@@ -237,8 +250,8 @@ def split_shadow(o):
 
 
 def run_sequences(ctx, drv, exe, lines, stream):
-    impl_raw, faults = core.run_lines_parallel(exe, lines, jobs=12)
-    model, _ = core.run_lines_parallel(drv, lines, jobs=12, env=None)
+    impl_raw, faults = core.run_lines_parallel(exe, lines, jobs=12, timeout_per_batch=3000)
+    model, _ = core.run_lines_parallel(drv, lines, jobs=12, env=None, timeout_per_batch=3000)
     for i, kind, err in faults:
         ctx.fail("fault:" + kind, "sanitizer fault in a BigInt operation sequence: " + lines[i][:600], {"line": lines[i], "stderr": err})
     impl, sh_checked, sh_bad = [], 0, 0
@@ -265,7 +278,7 @@ def run_sequences(ctx, drv, exe, lines, stream):
             continue
         olines.append("bigoracle %s %s %d %s %s" % (t[1], t[2], len(ops), " ".join(ops), " ".join(toks)) if ops else "bigoracle %s %s 0" % (t[1], t[2]))
         idx.append(i)
-    verdicts, _ = core.run_lines_parallel(drv, olines, jobs=12, env=None)
+    verdicts, _ = core.run_lines_parallel(drv, olines, jobs=12, env=None, timeout_per_batch=3000)
     checked = 0
     for j, v in enumerate(verdicts):
         if v.startswith("ok "):
@@ -371,11 +384,16 @@ def run(ctx):
     seqs = [l for l in corpus if l.startswith("bigseq")]
     if seqs:
         run_sequences(ctx, drv, exe, seqs, "corpus")
-    length = 40 if not ctx.thorough else 400
-    per = 120 if not ctx.thorough else 150
     lines = []
     for (W, n) in INST:
-        # short exhaustive-ish prefix: every single operation kind on 0, on a small and on a full value
+        if not ctx.thorough:
+            length, per = 40, 120
+        elif n <= 16:
+            length, per = 400, 150
+        elif n <= 64:
+            length, per = 200, 60       # keeps the trace volume (steps x words) bounded
+        else:
+            length, per = 100, 30
         for _ in range(per):
             L = rng.choice([length, length, max(4, length // 4), rng.randrange(1, length + 1)])
             lines.append("bigseq %d %d %s" % (W, n, " ".join(gen_sequence(rng, W, n, L))))
@@ -389,5 +407,5 @@ def run(ctx):
 
 
 FINISH = dict(level="proof",
-              rule="operation sequences (<= 40 quick / 400 thorough steps) on 20 instantiations, operands biased to 0, 1, all-ones, single bits, word boundaries, divisors with the top bit set, odd/even, shifts at multiples of the word size and at the exact remaining room; both DoubleSize helper variants exhaustively at 8-bit words (2 x (2^16 + 255*2^16) cases), random boundary-biased at 16/32/64",
+              rule="operation sequences (<= 40 quick / 400 thorough steps; 200 and 100 steps for the 64- and 256-word instantiations) on 20 instantiations, operands biased to 0, 1, all-ones, single bits, word boundaries, divisors with the top bit set, odd/even, shifts at multiples of the word size and at the exact remaining room; both DoubleSize helper variants exhaustively at 8-bit words (2 x (2^16 + 255*2^16) cases), random boundary-biased at 16/32/64",
               checker_cmd="cd lean && lake build Qentem.Props.C19 && lake env lean <#print axioms of the listed theorems>")
